@@ -50,8 +50,8 @@ class Dom:
             self.add_path_equalities(self.p)
         if self.p is not None and 'uns' in self.use:
             # L-uns: amounts are unsigned, so not (0 < x) implies x == 0
-            for f, _, _ in self.p.facts:
-                if f[0] == 'val' and f[2] is False and f[1][0] == 'lt' and f[1][1] == I(0): self.add_equality(f[1][2], I(0))
+            for x, sg in self.p.signs():
+                if sg == 'zero' and isinstance(x, tuple) and numericish(x): self.add_equality(x, I(0))
 
     # --- invariant eliminations for the records seen on this path
     def assume_bid(self, BID, has_fee=None):
